@@ -214,3 +214,6 @@ package config
 //@   modifies fsdom, fsys
 //@   ensures[written] result == nil ==> fsdom[metricsPath()] && fsys[metricsPath()] == content
 //@   ensures[only-this-file] forall(p, string, p != metricsPath() ==> fsdom[p] == old(fsdom)[p] && fsys[p] == old(fsys)[p])
+
+// assumption: the five managed locations are different places (different directories, two different files outside them)
+//@ axiom[locations-disjoint] forall(a, string, forall(b, string, flowPath(a) != quotaPath(b) && flowPath(a) != paramsPath(b) && quotaPath(a) != paramsPath(b) && flowPath(a) != gatewayPath() && flowPath(a) != metricsPath() && quotaPath(a) != gatewayPath() && quotaPath(a) != metricsPath() && paramsPath(a) != gatewayPath() && paramsPath(a) != metricsPath())) && gatewayPath() != metricsPath()
